@@ -160,12 +160,17 @@ func (tx *Tx) Commit() error {
 		countFlag = CountFlagDisabled
 	}
 
+	// check every entry before writing any of them: an oversized entry must
+	// not leave the entries before it on disk and in the index
+	for i := 0; i < writesLen; i++ {
+		if tx.pendingWrites[i].Size() > tx.db.opt.SegmentSize {
+			return ErrKeyAndValSize
+		}
+	}
+
 	for i := 0; i < writesLen; i++ {
 		entry := tx.pendingWrites[i]
 		entrySize := entry.Size()
-		if entrySize > tx.db.opt.SegmentSize {
-			return ErrKeyAndValSize
-		}
 
 		bucket := string(entry.Meta.bucket)
 
